@@ -254,8 +254,17 @@ class StrictSdoServer:
         self.st = None
         return [(self.tx, bytes([0xA1]) + bytes(7))]
 
+    def timeout(self):
+        """Server-side SDO time-out: whatever transfer was running is dropped."""
+        self.st = None
+
     def _bdl_segment(self, f):
         st = self.st
+        if f[0] == 0x80:
+            # sequence number 0 is never a segment: this is the client's abort
+            self.aborts_received.append(struct.unpack_from("<L", f, 4)[0])
+            self.st = None
+            return []
         seq, c = f[0] & 0x7F, f[0] >> 7
         if seq == 0 or seq > st["blksize"]:
             self._viol("seqno", f, f"sequence number {seq} outside 1..{st['blksize']}")
